@@ -806,13 +806,13 @@ fn gen_scalar_i64(cfg: &GenCfg, rng: &mut Rng, w: &mut dyn Write) {
         }
     }
     // random operands around the interesting magnitudes
-    let n = if cfg.thorough { 60000 } else { 3000 } * cfg.scale;
+    let n = if cfg.thorough { 400000 } else { 30000 } * cfg.scale;
     let interesting: [i64; 14] = [
         0, 1, -1, i64::MAX, i64::MIN, 1 << 31, -(1 << 31), 1 << 32, 3037000499, 3037000500, -3037000500, 1 << 62, -(1 << 62), i64::MAX / 3,
     ];
     writeln!(w, "case scalar-i64-random").unwrap();
     for _ in 0..n {
-        let mut pick = |rng: &mut Rng| -> String {
+        let pick = |rng: &mut Rng| -> String {
             match rng.below(10) {
                 0 => "nan".into(),
                 1 => "+inf".into(),
@@ -889,7 +889,7 @@ fn gen_one_var(cfg: &GenCfg, rng: &mut Rng, w: &mut dyn Write) {
     let mut left: Vec<usize> = (0..funs.len()).collect();
     rng.shuffle(&mut left);
     if !cfg.thorough {
-        left.truncate(24);
+        left.truncate(48);
     }
     for (k, chunk) in left.chunks(4).enumerate() {
         writeln!(w, "case one-var-{}", k).unwrap();
@@ -913,7 +913,7 @@ fn gen_one_var(cfg: &GenCfg, rng: &mut Rng, w: &mut dyn Write) {
 /// two-variable functions: all pairs over a pool of functions, all six operators per pair
 fn gen_two_var(cfg: &GenCfg, rng: &mut Rng, w: &mut dyn Write, f64m: bool) {
     let pool = if f64m { pool_f64() } else { pool_i64() };
-    let psize = if f64m { if cfg.thorough { 40 } else { 16 } } else if cfg.thorough { 120 } else { 42 } as usize;
+    let psize = if f64m { if cfg.thorough { 48 } else { 18 } } else if cfg.thorough { 150 } else { 60 } as usize;
     let mut tabs: Vec<Vec<String>> = Vec::new();
     // fixed members: constants 0, 1, nan and projections, then random tables
     let (zero, one, nan) = if f64m {
@@ -954,10 +954,46 @@ fn gen_two_var(cfg: &GenCfg, rng: &mut Rng, w: &mut dyn Write, f64m: bool) {
     }
 }
 
+/// thorough only: ALL two-variable functions over the terminals {0, 1, -1, nan, +inf} (625), all
+/// 390 625 ordered pairs, all six operators
+fn gen_two_var_exhaustive(cfg: &GenCfg, rng: &mut Rng, w: &mut dyn Write) {
+    if !cfg.thorough {
+        return;
+    }
+    let terms = ["0", "1", "-1", "nan", "+inf"];
+    let mut tabs: Vec<Vec<String>> = Vec::new();
+    for code in 0..625usize {
+        let mut c = code;
+        let mut t = Vec::new();
+        for _ in 0..4 {
+            t.push(terms[c % 5].to_string());
+            c /= 5;
+        }
+        tabs.push(t);
+    }
+    let idx: Vec<usize> = (0..tabs.len()).collect();
+    for (k, chunk) in idx.chunks(25).enumerate() {
+        writeln!(w, "case two-var-all-{}", k).unwrap();
+        mgr_header(w, 2, false);
+        for (i, t) in tabs.iter().enumerate() {
+            build_table(w, &format!("f{}", i), 2, t);
+        }
+        for &l in chunk {
+            for g in 0..tabs.len() {
+                let mut ops = OPS.to_vec();
+                rng.shuffle(&mut ops);
+                for o in ops {
+                    writeln!(w, "op r {} f{} f{}", o, l, g).unwrap();
+                }
+            }
+        }
+    }
+}
+
 /// histories that issue different operators on the same operands of one manager
 fn gen_histories(cfg: &GenCfg, rng: &mut Rng, w: &mut dyn Write) {
     let pool = pool_i64();
-    let reps = if cfg.thorough { 60 } else { 12 } * cfg.scale;
+    let reps = if cfg.thorough { 400 } else { 48 } * cfg.scale;
     for k in 0..reps {
         let n = rng.range(2, 4) as u32;
         writeln!(w, "case history-{}", k).unwrap();
@@ -1001,7 +1037,7 @@ fn gen_histories(cfg: &GenCfg, rng: &mut Rng, w: &mut dyn Write) {
 /// random sessions over 3..4 variables: composition of results, ite, restrict, eval
 fn gen_random(cfg: &GenCfg, rng: &mut Rng, w: &mut dyn Write, f64m: bool) {
     let pool = if f64m { pool_f64() } else { pool_i64() };
-    let reps = if f64m { if cfg.thorough { 40 } else { 6 } } else if cfg.thorough { 400 } else { 40 } * cfg.scale;
+    let reps = if f64m { if cfg.thorough { 200 } else { 20 } } else if cfg.thorough { 2500 } else { 200 } * cfg.scale;
     for k in 0..reps {
         let n = if rng.chance(1, 6) { rng.range(1, 2) } else { rng.range(3, 4) } as u32;
         writeln!(w, "case random{}-{}", if f64m { "-f64" } else { "" }, k).unwrap();
@@ -1092,6 +1128,50 @@ fn gen_random(cfg: &GenCfg, rng: &mut Rng, w: &mut dyn Write, f64m: bool) {
     }
 }
 
+/// restrict one function by every cube over the variables (each variable positive, negative or
+/// absent), then a few ite lines sharing two of three operands: same first operand, different
+/// second/third operand on one manager (what a too coarse cache key would confuse)
+fn gen_restrict_all(cfg: &GenCfg, rng: &mut Rng, w: &mut dyn Write) {
+    let pool = pool_i64();
+    let reps = if cfg.thorough { 300 } else { 30 } * cfg.scale;
+    for k in 0..reps {
+        let n = rng.range(2, 4) as u32;
+        writeln!(w, "case restrict-all-{}", k).unwrap();
+        mgr_header(w, n, false);
+        writeln!(w, "const one 1").unwrap();
+        for v in 0..n {
+            writeln!(w, "op nx{} sub one x{}", v, v).unwrap();
+        }
+        build_table(w, "f", n, &random_table(rng, n, &pool));
+        build_table(w, "g", n, &random_table(rng, n, &pool));
+        let mut codes: Vec<u32> = (0..3u32.pow(n)).collect();
+        rng.shuffle(&mut codes);
+        for code in codes {
+            // build the cube from the highest variable down (any order gives the same diagram)
+            let mut cur = "one".to_string();
+            let mut c = code;
+            for v in 0..n {
+                let d = c % 3;
+                c /= 3;
+                if d == 0 {
+                    continue;
+                }
+                let lit = if d == 1 { format!("x{}", v) } else { format!("nx{}", v) };
+                writeln!(w, "op q{} mul {} {}", v, cur, lit).unwrap();
+                cur = format!("q{}", v);
+            }
+            writeln!(w, "restrict r f {}", cur).unwrap();
+            writeln!(w, "restrict s g {}", cur).unwrap();
+            writeln!(w, "restrict t r {}", cur).unwrap(); // idempotent
+            if rng.chance(1, 4) {
+                writeln!(w, "ite u {} f g", cur).unwrap(); // a cube is 0-1-valued
+                writeln!(w, "ite u {} g f", cur).unwrap();
+                writeln!(w, "ite u {} f r", cur).unwrap();
+            }
+        }
+    }
+}
+
 fn gen_malformed(w: &mut dyn Write) {
     writeln!(w, "case malformed").unwrap();
     for l in [
@@ -1139,7 +1219,9 @@ fn generate(cfg: &GenCfg, rng: &mut Rng, w: &mut dyn Write) {
     gen_one_var(cfg, rng, w);
     gen_two_var(cfg, rng, w, false);
     gen_two_var(cfg, rng, w, true);
+    gen_two_var_exhaustive(cfg, rng, w);
     gen_histories(cfg, rng, w);
+    gen_restrict_all(cfg, rng, w);
     gen_random(cfg, rng, w, false);
     gen_random(cfg, rng, w, true);
     gen_malformed(w);
